@@ -178,7 +178,7 @@ def finish(ctx: Ctx) -> int:
     # group unknown violations by clause to keep output readable
     shown = 0
     for n, v in enumerate(unknown):
-        if shown >= 10:
+        if shown >= int(os.environ.get("VERIF_REPLAY_MAX", "10")):
             break
         path = REPLAY / f"{ctx.prop}-{n}.json"
         path.write_text(json.dumps({"property": ctx.prop, "tier": ctx.tier, "seed": ctx.seed, "what": v.what,
